@@ -713,6 +713,24 @@ func c13RefGrid() []c13Case {
 			}
 		}
 	}
+	// 3b. a pipeline written with no body at all (`logs:` / `logs: {}`) or with processors only has neither
+	for _, pl := range []string{"traces", "logs", "metrics"} {
+		for _, how := range []string{"null-body", "empty-map-body", "processors-only", "empty-lists"} {
+			m := base()
+			ps := m["service"].(map[string]any)["pipelines"].(map[string]any)
+			switch how {
+			case "null-body":
+				ps[pl] = nil
+			case "empty-map-body":
+				ps[pl] = map[string]any{}
+			case "processors-only":
+				ps[pl] = map[string]any{"processors": []any{"batch"}}
+			case "empty-lists":
+				ps[pl] = map[string]any{"receivers": []any{}, "processors": []any{}, "exporters": []any{}}
+			}
+			out = append(out, c13Case{Kind: "fault", Comp: fmt.Sprintf("pipeline without receivers and exporters: %s (%s)", pl, how), Expect: "receiver", Config: m})
+		}
+	}
 	// 4. connector id shared with a receiver / an exporter
 	for _, role := range []string{"receivers", "exporters"} {
 		for _, id := range []string{"nop", "nop/2"} {
